@@ -20,6 +20,7 @@ type AdaOutcome struct {
 	Err        bool
 	Protocol   string // "http:" ...
 	Hostname   string
+	Host       string // hostname[:port]; empty = same as Hostname
 	Href       string // without fragment
 	HrefWithFr string // with fragment (== Href when the input has none)
 }
@@ -58,6 +59,12 @@ func AdaSetHash(u *goada.Url, h string) {
 }
 func AdaProtocol(u *goada.Url) string { return adaStates[u].o.Protocol }
 func AdaHostname(u *goada.Url) string { return adaStates[u].o.Hostname }
+func AdaHost(u *goada.Url) string {
+	if h := adaStates[u].o.Host; h != "" {
+		return h
+	}
+	return adaStates[u].o.Hostname
+}
 func AdaHref(u *goada.Url) string {
 	st := adaStates[u]
 	if st.hashCleared {
